@@ -112,7 +112,9 @@ def impl_murmur(key):
 
 def impl_hashed(key, parts, form):
     from afkak.partitioner import HashedPartitioner
-    hp = HashedPartitioner("t", list(parts))
+    # constructed with a DIFFERENT list than the one passed to partition(): the result may depend only on
+    # the key and the list supplied with the call
+    hp = HashedPartitioner("t", list(range(len(key) % 7 + 1)))
     try:
         if form == "text":
             k = "".join(chr(c) for c in key)
@@ -127,6 +129,8 @@ def impl_hashed(key, parts, form):
         return [1, p]
     except (ZeroDivisionError, UnicodeEncodeError):
         return [0]
+    except IndexError:
+        return [-3]     # never a legal outcome for a non-empty list: shows up as a difference
 
 
 def impl_rr(random_start, init, calls, rnd):
